@@ -15,7 +15,7 @@ from array_api_compat import array_namespace
 from scipy import special
 
 
-PARAM_NAMES = ["zeta", "α", "mu_", "beta_", "kappa", "chi"]  # unsorted, and not all ASCII: names are text
+PARAM_NAMES = ["zeta", "θ/π", "chi.z", "beta_", "kappa", "chi"]  # unsorted, not all ASCII, with '/' (a ratio) and '.' (a component): names are text
 
 
 class Coord:
